@@ -276,6 +276,31 @@ func ruleC06(c *Ctx) {
 						dep = append(dep, k)
 					}
 				}
+				// the start angle may be carried round the loop instead of being computed again: a variable that starts as
+				// the end-angle formula at i = -1 and becomes, on the way round, the end angle just used - by induction it
+				// is that formula at i - 1
+				if len(dep) == 1 && li != nil {
+					lf := seg.Loops[0].Frame
+					for k, a := range seg.Args {
+						if a == nil || a.Op != "atom" || k == dep[0] {
+							continue
+						}
+						phi := phiOfAtom(lf, a)
+						if phi == nil || phi.Block().Index != seg.Loops[0].Header {
+							continue
+						}
+						pinit, pback := phiEdges(lf, phi)
+						if len(pinit) != 1 || len(pback) != 1 || !sym.Eq(pback[0], seg.Args[dep[0]]) {
+							continue
+						}
+						in0, ok0 := env.One(pinit[0])
+						bk := nf[dep[0]]
+						if ok0 && in0.Equal(bk.SubstVar("i", poly.RatInt(-1))) {
+							nf[k] = bk.SubstVar("i", v("i").Sub(poly.RatInt(1)))
+							dep = append([]int{k}, dep...)
+						}
+					}
+				}
 				if len(dep) != 2 {
 					R.Bad(key+":segments.angles", pos, "two arguments (start and end angle) depend on the loop counter", fmt.Sprint(dep))
 				} else {
